@@ -3,9 +3,9 @@ package main
 // C10 - Flush makes everything written so far decodable: block framing rules R10.1 - R10.6.
 
 import (
-	"strings"
 	"go/token"
 	"go/types"
+	"strings"
 
 	"golang.org/x/tools/go/ssa"
 )
@@ -791,6 +791,53 @@ func ruleR10_6(p *Program, r *Report) {
 		}
 		w, _ := constInt(c.Common().Args[2])
 		v, isK := constInt(c.Common().Args[1])
+		if w == 3 && !isK {
+			// the header value picked into a local first: a phi of 4 and 5 whose 5 arrives by the eos edge
+			if phi, ok := stripConv(c.Common().Args[1]).(*ssa.Phi); ok && len(phi.Edges) == 2 {
+				vals := map[int64]*ssa.BasicBlock{}
+				for i, e := range phi.Edges {
+					if k, ok := constInt(e); ok {
+						vals[k] = phi.Block().Preds[i]
+					}
+				}
+				if b5, ok5 := vals[5]; ok5 {
+					if b4, ok4 := vals[4]; ok4 {
+						// which edge carries 5? the one only taken when eos holds
+						eosTrue := func(from *ssa.BasicBlock) (bool, bool) {
+							var fs []Fact
+							if len(from.Instrs) > 0 {
+								fs = dominatingFacts(from.Instrs[len(from.Instrs)-1])
+							}
+							if br, ok := edgeCond(from, phi.Block()); ok {
+								if f, ok := branchFact(br); ok {
+									fs = append(fs, f)
+								}
+							}
+							t, fl := false, false
+							for _, f := range fs {
+								if f.Y == nil && boundTo(f.X, eos, rc.bind) {
+									if f.Op == token.EQL {
+										t = true
+									} else {
+										fl = true
+									}
+								}
+							}
+							return t, fl
+						}
+						t5, _ := eosTrue(b5)
+						_, f4 := eosTrue(b4)
+						// `v := 4; if eos { v = 5 }`: the 4 arrives from the block that tests eos, by its false edge
+						if t5 && f4 {
+							got[5], got[4] = true, true
+						} else {
+							r.Fail("R10.6", "writeTo|header phi", p.InstrPos(c), "block header is BFINAL=1,BTYPE=10 (5) iff eos, else 4", "the header value is chosen between 4 and 5 by something other than eos")
+						}
+						continue
+					}
+				}
+			}
+		}
 		if w != 3 || !isK || (v != 4 && v != 5) {
 			continue
 		}
